@@ -3,11 +3,13 @@ package props
 import (
 	"bytes"
 	"fmt"
+	"github.com/shopspring/decimal"
 	"hash/fnv"
 	"math/rand"
 	"regexp"
 	"runtime"
 	"sort"
+	"strconv"
 	"strings"
 	"sync"
 	"sync/atomic"
@@ -116,6 +118,10 @@ var c18Templates = map[string]string{
 	// what a call returns is a function of the template and the context, also when a filter is handed a hash
 	// whose keys overlap
 	"replace.txt": "{{ 'abcabc'|replace({'a': '1', 'ab': '2', 'abc': '3', 'b': '4'}) }}|{{ x|replace({'a': 'A', 'al': 'AL', 'p': 'P', 'pl': 'PL', 'ain': '!'}) }}",
+	// every built-in filter with the arguments that select its less usual paths, from many callers at once
+	"dates.txt":   "{{ tm1|date('jS F Y') }}|{{ tm2|date('dS M') }}|{{ tm3|date('D, d M Y H:i:s') }}|{{ tm22|date('S') }}|{{ tm1|date('Y') }}|{{ tm2|date }}",
+	"dates2.txt":  "{% for d in [tm1, tm2, tm3, tm22, tm11] %}{{ d|date('jS') }},{% endfor %}{{ tm3|date('c') }}|{{ tm11|date('l jS \\o\\f F') }}",
+	"numbers.txt": "{{ 1234.567|number_format(2, ',', '.') }}|{{ 0.5|round }}|{{ 2.5|round(0, 'floor') }}|{{ items|json_encode }}|{{ dec|json_encode }}|{{ [dec, 1.5]|json_encode }}|{{ dec }}|{{ 7|abs }}|{{ 'a,b'|split(',')|join('+') }}",
 	"tests.txt":   "{{ 4 is pos }}{{ 0 is not pos }}{% for i in items if i %}{{ loop.index }}{{ i }}{% else %}none{% endfor %}",
 }
 
@@ -128,6 +134,10 @@ func init() {
 	for _, c := range c18Ctx {
 		c["shared"] = c18Shared
 		c["sharedmap"] = c18SharedMap
+		c["dec"] = decimal.NewFromFloat(1.5)
+		for _, d := range []int{1, 2, 3, 11, 22} {
+			c["tm"+strconv.Itoa(d)] = time.Date(2021, 3, d, 4, 5, 6, 0, time.UTC)
+		}
 	}
 }
 
